@@ -112,8 +112,19 @@ def drop_list(text, rep):
     """Apply D1, D2, D5 to an extracted item."""
     out = []
     before = text.count("\n") + 1
+    in_log = 0  # paren depth inside a multi-line info!/debug!/warn!/trace! statement (D5)
     for line in text.split("\n"):
         st = line.strip()
+        if in_log:
+            cl = strip_strings_and_comments(line)
+            in_log += cl.count("(") - cl.count(")")
+            if in_log <= 0:
+                in_log = 0
+            continue
+        if re.match(r"(info|debug|warn|trace)!\($", st) or (re.match(r"(info|debug|warn|trace)!\(", st) and not st.endswith(");")):
+            cl = strip_strings_and_comments(line)
+            in_log = cl.count("(") - cl.count(")")
+            continue
         if st.startswith("//"):
             continue
         if re.match(r"#\[(allow|non_exhaustive)\b.*\]$", st):
@@ -279,6 +290,8 @@ def main():
         for other in OTHER_FIELDS:
             if re.search(r"\bself\s*\.\s*%s\b" % other, strip_strings_and_comments(t)):
                 raise Lost("id_for_schema mentions field `%s` outside the allocator subset" % other)
+        # (convert_ref_type as a WHOLE is outside Verus' subset: "match arm containing both a
+        # match-guard and a binding by mutable reference" -- only its tail slice is taken, D8)
         # D8: the tail of add_ref_types_impl -- `self.break_cycles(..)` up to the final `Ok(())`
         sp = find_item(lib, r"^    fn add_ref_types_impl\b", lib_c)
         if not sp:
